@@ -33,9 +33,13 @@ fn parse_header(header: &str) -> Result<Header, ParseError> {
         return Err(ParseError::HeaderTooLong);
     }
 
-    let mut iterator = header
-        .splitn(PARTS, |c| c == SEPARATOR || c == CARRIAGE_RETURN)
-        .peekable();
+    // The header holds at most one line: whatever follows the first carriage return ends it.
+    let (line, suffix) = match header.split_once(CARRIAGE_RETURN) {
+        Some((line, suffix)) => (line, Some(suffix)),
+        None => (header, None),
+    };
+
+    let mut iterator = line.splitn(PARTS, SEPARATOR).peekable();
 
     let prefix = iterator.next().ok_or(ParseError::MissingPrefix)?;
 
@@ -69,11 +73,12 @@ fn parse_header(header: &str) -> Result<Header, ParseError> {
             })
         }
         Some(UNKNOWN) => {
-            while iterator.next_if(|&s| s != NEWLINE).is_some() {}
+            // The remainder of the line is ignored.
+            while iterator.next().is_some() {}
 
             Addresses::Unknown
         }
-        Some(protocol) if protocol.is_empty() && iterator.peek().is_none() => {
+        Some(protocol) if protocol.is_empty() && iterator.peek().is_none() && suffix.is_none() => {
             return Err(ParseError::MissingProtocol)
         }
         Some(protocol)
@@ -84,16 +89,18 @@ fn parse_header(header: &str) -> Result<Header, ParseError> {
             return Err(ParseError::Partial)
         }
         Some(_) => return Err(ParseError::InvalidProtocol),
+        None if suffix.is_some() => return Err(ParseError::InvalidProtocol),
         None => return Err(ParseError::MissingProtocol),
     };
 
-    let newline = iterator
-        .next()
-        .filter(|s| !s.is_empty())
-        .ok_or(ParseError::MissingNewLine)?;
-
-    if newline != NEWLINE {
+    if iterator.next().is_some() {
         return Err(ParseError::InvalidSuffix);
+    }
+
+    match suffix {
+        None | Some("") => return Err(ParseError::MissingNewLine),
+        Some(NEWLINE) => (),
+        Some(_) => return Err(ParseError::InvalidSuffix),
     }
 
     Ok(Header {
